@@ -163,7 +163,8 @@ func (c *Checker) checkC05Msg(msg sdk.Msg, ok bool) {
 			c.report("C05", "take-from-missing-basket", "Take succeeded for a basket that does not exist", nil)
 			return
 		}
-		amt, aok := new(big.Int).SetString(m.Amount, 10)
+		// the amount is an sdk.Int: Go integer-literal syntax ("010" is 8, "0x10" is 16, "1_000" is 1000)
+		amt, aok := new(big.Int).SetString(m.Amount, 0)
 		if !aok {
 			c.report("C05", "take-accepted-bad-amount", fmt.Sprintf("Take accepted amount %q", m.Amount), nil)
 			return
@@ -187,6 +188,10 @@ func (c *Checker) checkC05Msg(msg sdk.Msg, ok bool) {
 				return
 			}
 			sum.Add(sum, a)
+		}
+		// independent of how the amount string is read: credits released x 10^precision = tokens burned
+		if burned := new(big.Rat).SetFrac(sup, pow10(prec)); sum.Cmp(burned) != 0 {
+			c.report("C05", "take-released!=burned", fmt.Sprintf("Take(%q) burned %s tokens but released %s credits", m.Amount, sup, ratStr(sum)), nil)
 		}
 		if sum.Cmp(want) != 0 {
 			c.report("C05", "take-released-wrong-amount", fmt.Sprintf("Take of %s tokens released %s credits, expected %s", amt, ratStr(sum), ratStr(want)), nil)
@@ -358,7 +363,7 @@ func (c *Checker) checkTake(m *basket.MsgTake) {
 	if b == nil {
 		return
 	}
-	amt, aok := new(big.Int).SetString(m.Amount, 10)
+	amt, aok := new(big.Int).SetString(m.Amount, 0) // sdk.Int syntax (base 0), see C05
 	if !aok {
 		return
 	}
